@@ -1,11 +1,29 @@
 /-
 C19 — Pareto-front identification and front ranking are exact.
-Property theorems only (helper lemmas live in Lemmas/ParetoLoop.lean).
+Property theorems only (helper lemmas live in Lemmas/ParetoLoop, ParetoVec, ParetoSet for the filter
+and the dominance predicate, Lemmas/ParetoDist, ParetoCols, ParetoGeo, ParetoSpec for the distances).
 
 Model: PybropsModel/Model/Pareto.lean (`efficientIdx`, `efficientMask` transcribe
-pybrops/core/util/pareto.py:is_pareto_efficient; `dominates` transcribes pymoo_addon.dominates).
+pybrops/core/util/pareto.py:is_pareto_efficient; `dominates` transcribes pymoo_addon.dominates;
+`transDistSq` transcribes the three distance-to-preference-vector transformations on squared
+distances; `geoDist` / `specDist` are the geometric definition and the Spec the driver evaluates;
+`Pareto.Q.*` are the constants the driver executes).
+
+Sentence 1 of the property: `filter_sound`, `filter_complete`, `filter_indices`, `mask_eq_index`,
+`efficient_vectors_char`, `perm_invariant_set`, `rescale_invariant`.
+Sentence 2 (dominance predicate): `dominates_feasible`, `dominates_feasible_eq_strictDom`,
+`dominates_infeasible(_iff)`, `dominates_feasibility_first`, `dominates_irrefl`, `dominates_asymm`,
+`dominates_trans`, `dominates_infeasible_total`, `dominates_infeasible_negtrans`.
+Sentence 3 (distances): equal their geometric definitions — `dist_geometric_def`,
+`dist_residual_orthogonal`, `dist_pythagoras`, `dist_nonneg`, `dist_zero_iff_on_line`,
+`dist_eq_geometric_def`, `scaled_in_unit_interval`, `scaled_constant_zero`; invariant to translation —
+`dist_translation_invariant` (and to positive rescaling: `dist_rescale_invariant`,
+`dist_sign_flip_counterexample`); finite when an objective is constant — `dist_finite_when_constant`,
+`dist_finite_one_per_point`, against `dist_prerepair_nan_of_constant` / `…_counterexample` (D13, repaired).
+Spec oracle: `spec_dist_sound`, `spec_dist_rejects`.  Section `Q`: the same statements on the driver's constants.
 -/
 import PybropsModel.Lemmas.ParetoSet
+import PybropsModel.Lemmas.ParetoSpec
 set_option linter.unusedSectionVars false
 set_option autoImplicit false
 
@@ -292,6 +310,415 @@ theorem dominates_trans (o1 o2 o3 : List α) (c1 c2 c3 : α)
 
 end dom
 
+
+/-! ### the dominance predicate: asymmetry, link to the filter's test, infeasible points by `cv` -/
+section dom2
+variable {α : Type} [LinearOrder α] [Zero α]
+
+/-- `dominates` is asymmetric (no length hypothesis needed) -/
+theorem dominates_asymm (o1 o2 : List α) (c1 c2 : α) (h : dominates o1 c1 o2 c2 = true) :
+    dominates o2 c2 o1 c1 = false := by
+  by_cases f : c1 ≤ 0 ∧ c2 ≤ 0
+  · rw [dominates_feasible _ _ _ _ f.1 f.2] at h
+    rw [dominates_feasible _ _ _ _ f.2 f.1]
+    rw [Bool.and_eq_true, all_le_iff, any_lt_iff] at h
+    obtain ⟨_, i, h1, h2, hlt⟩ := h
+    have : (List.zip o2 o1).all (fun ab => decide (ab.1 ≤ ab.2)) = false := by
+      by_contra hne
+      have hne : (List.zip o2 o1).all (fun ab => decide (ab.1 ≤ ab.2)) = true := by simpa using hne
+      rw [all_le_iff] at hne
+      exact absurd (hne i h2 h1) (not_le.mpr hlt)
+    rw [this]; rfl
+  · rw [dominates_infeasible _ _ _ _ f] at h
+    rw [dominates_infeasible _ _ _ _ (fun g => f ⟨g.2, g.1⟩)]
+    simp only [decide_eq_true_eq, decide_eq_false_iff_not, not_lt] at h ⊢
+    exact h.le
+
+/-- on feasible points `dominates` (minimisation) is exactly the strict Pareto dominance test the
+    filter's Spec uses (`strictDom`, maximisation) with the arguments exchanged -/
+theorem dominates_feasible_eq_strictDom (o1 o2 : List α) (c1 c2 : α) (h1 : c1 ≤ 0) (h2 : c2 ≤ 0) :
+    dominates o1 c1 o2 c2 = strictDom o2 o1 := by
+  rw [dominates_feasible _ _ _ _ h1 h2, Bool.eq_iff_iff, Bool.and_eq_true, all_le_iff, any_lt_iff,
+    strictDom_iff, weakDom_iff]
+  constructor
+  · rintro ⟨ha, i, h1, h2, hlt⟩; exact ⟨ha, i, h2, h1, hlt⟩
+  · rintro ⟨ha, i, h1, h2, hlt⟩; exact ⟨ha, i, h2, h1, hlt⟩
+
+/-- as soon as one point is infeasible the predicate is the strict order of the violations … -/
+theorem dominates_infeasible_iff (o1 o2 : List α) (c1 c2 : α) (h : 0 < c1 ∨ 0 < c2) :
+    dominates o1 c1 o2 c2 = true ↔ c1 < c2 := by
+  rw [dominates_infeasible _ _ _ _ (by
+    rintro ⟨a, b⟩
+    rcases h with h | h
+    · exact absurd a (not_le.mpr h)
+    · exact absurd b (not_le.mpr h))]
+  simp
+
+/-- … hence infeasible points are totally pre-ordered by constraint violation: of two of them
+    exactly one dominates, unless their violations are equal (then neither does) -/
+theorem dominates_infeasible_total (o1 o2 : List α) (c1 c2 : α) (h1 : 0 < c1) (_h2 : 0 < c2) :
+    (dominates o1 c1 o2 c2 = true ∧ dominates o2 c2 o1 c1 = false ∧ c1 ≠ c2) ∨
+    (dominates o1 c1 o2 c2 = false ∧ dominates o2 c2 o1 c1 = true ∧ c1 ≠ c2) ∨
+    (dominates o1 c1 o2 c2 = false ∧ dominates o2 c2 o1 c1 = false ∧ c1 = c2) := by
+  have e12 := dominates_infeasible_iff o1 o2 c1 c2 (Or.inl h1)
+  have e21 := dominates_infeasible_iff o2 o1 c2 c1 (Or.inr h1)
+  rcases lt_trichotomy c1 c2 with h | h | h
+  · left
+    refine ⟨e12.mpr h, ?_, h.ne⟩
+    rw [← Bool.not_eq_true, e21]; exact not_lt.mpr h.le
+  · right; right
+    refine ⟨?_, ?_, h⟩
+    · rw [← Bool.not_eq_true, e12, h]; exact lt_irrefl _
+    · rw [← Bool.not_eq_true, e21, h]; exact lt_irrefl _
+  · right; left
+    refine ⟨?_, e21.mpr h, h.ne'⟩
+    rw [← Bool.not_eq_true, e12]; exact not_lt.mpr h.le
+
+/-- negative transitivity among infeasible points (what makes "neither dominates" an equivalence,
+    i.e. the order a total pre-order) -/
+theorem dominates_infeasible_negtrans (o1 o2 o3 : List α) (c1 c2 c3 : α) (h1 : 0 < c1) (h2 : 0 < c2)
+    (_h3 : 0 < c3) (h12 : dominates o1 c1 o2 c2 = false) (h23 : dominates o2 c2 o3 c3 = false) :
+    dominates o1 c1 o3 c3 = false := by
+  rw [← Bool.not_eq_true, dominates_infeasible_iff _ _ _ _ (Or.inl h1)] at h12 ⊢
+  rw [← Bool.not_eq_true, dominates_infeasible_iff _ _ _ _ (Or.inl h2)] at h23
+  exact not_lt.mpr ((not_lt.mp h23).trans (not_lt.mp h12))
+
+end dom2
+
+/-! ### the distance-to-preference-vector transformations
+
+`transDistSq guarded mat sign line` transcribes the three functions (squared distances; `sign` =
+`objfn_minmax` / `vec_wt` / `wt` multiplies the front first, `line` = the vector projected on);
+since fix 1939b469 all three carry the zero-range guard, i.e. run with `guarded = true`. -/
+section dist
+variable {α : Type} [Field α] [LinearOrder α] [IsStrictOrderedRing α]
+
+/-- **Geometric definition, one point.**  The code's `‖P - (1/(L·L))(P·L) L‖²` written with list
+    sums is the squared norm of `P - proj_L P`, `proj_L P = ((P·L)/(L·L)) L` (no hypothesis). -/
+theorem dist_geometric_def (l p : List α) :
+    distSq l p = normSq (vsub p (proj l p)) ∧
+    distSq l p = ((List.zipWith (fun x y => x - (vdot p l / vdot l l) * y) p l).map (fun d => d * d)).sum := by
+  have h := distSq_eq_normSq l p
+  rw [resid_eq_vsub_proj] at h
+  refine ⟨h, ?_⟩
+  rw [h]
+  unfold normSq vsub proj smul
+  rw [List.zipWith_map_right]
+
+/-- the residual `P - proj_L P` is orthogonal to the line -/
+theorem dist_residual_orthogonal (l p : List α) (hlen : p.length = l.length) (hll : vdot l l ≠ 0) :
+    vdot (vsub p (proj l p)) l = 0 := by
+  have : vsub p (proj l p) = List.zipWith (fun x y => x - (vdot p l / vdot l l) * y) p l := by
+    unfold vsub proj smul; rw [List.zipWith_map_right]
+  rw [this, resid_dot _ p l hlen]
+  field_simp
+  ring
+
+/-- Pythagoras form: `dist² = P·P - (P·L)²/(L·L)` -/
+theorem dist_pythagoras (l p : List α) (hlen : p.length = l.length) (hll : vdot l l ≠ 0) :
+    distSq l p = vdot p p - (vdot p l) ^ 2 / vdot l l := by
+  rw [(dist_geometric_def l p).2]
+  have := sum_resid_sq (vdot p l / vdot l l) p l hlen
+  unfold normSq at this
+  rw [this]
+  field_simp
+  ring
+
+/-- squared distances are non-negative (so the code's `norm` is a real number) -/
+theorem dist_nonneg (l p : List α) : 0 ≤ distSq l p := by
+  rw [(dist_geometric_def l p).1]; exact normSq_nonneg _
+
+/-- the distance is exactly 0 iff the (scaled) point lies on the preference line -/
+theorem dist_zero_iff_on_line (l p : List α) (hlen : p.length = l.length) (hll : vdot l l ≠ 0) :
+    distSq l p = 0 ↔ ∃ c : α, p = smul c l := by
+  rw [(dist_geometric_def l p).1, normSq_eq_zero_iff]
+  constructor
+  · intro h
+    refine ⟨vdot p l / vdot l l, ?_⟩
+    apply List.ext_getElem
+    · simp [smul, hlen]
+    intro i h1 h2
+    have hi : i < l.length := by simpa [smul] using h2
+    have hm : p[i] - (vdot p l / vdot l l) * l[i] ∈ vsub p (proj l p) := by
+      unfold vsub proj smul
+      rw [List.mem_iff_getElem]
+      exact ⟨i, by simp [hlen, hi], by simp⟩
+    have := h _ hm
+    simp only [smul, List.getElem_map]
+    exact sub_eq_zero.mp this
+  · rintro ⟨c, rfl⟩ x hx
+    have hpl : vdot (smul c l) l = c * vdot l l := by
+      unfold smul vdot
+      rw [List.zipWith_map_left]
+      have : List.zipWith (fun a b => c * a * b) l l = (List.zipWith (· * ·) l l).map (fun z => c * z) := by
+        rw [List.map_zipWith]; congr 1; funext a b; ring
+      rw [this, List.sum_map_mul_left, List.map_id']
+    unfold vsub proj at hx
+    rw [hpl, mul_div_assoc, div_self hll, mul_one] at hx
+    unfold smul at hx
+    rw [List.zipWith_map_left, List.zipWith_map_right, List.zipWith_self] at hx
+    obtain ⟨y, _, rfl⟩ := List.mem_map.mp hx
+    ring
+
+/-- the property's quantifier ("non-zero preference vectors") gives the hypothesis `L·L ≠ 0` used below -/
+theorem pref_vector_dot_ne_zero (line : List α) (h : ∃ x ∈ line, x ≠ 0) : Np.dot line line ≠ 0 := by
+  rw [np_dot_eq, vdot_self]
+  intro h0
+  obtain ⟨x, hx, hne⟩ := h
+  exact hne ((normSq_eq_zero_iff line).mp h0 x hx)
+
+/-- **Geometric definition, whole transformation.**  On a rectangular front with at least one
+    objective the three functions return, for every point, the squared distance between the
+    min–max scaled point (`(x - lo)/(hi - lo)`, `0` for a constant objective) and its projection on
+    the preference line — the row-by-row definition `Pareto.geoDist` that the Spec oracle evaluates. -/
+theorem dist_eq_geometric_def (mat : List (List α)) (sign line : List α)
+    (hrect : ∀ r ∈ mat, r.length = sign.length) (hn : 0 < sign.length) (hll : Np.dot line line ≠ 0) :
+    transDistSq true mat sign line = some (geoDist mat sign line) := by
+  unfold transDistSq geoDist
+  have h0 : (Np.dot line line == 0) = false := by simpa using hll
+  rw [h0]
+  simp only [Bool.false_eq_true, if_false]
+  rw [scaleCols_guarded_geo _ sign.length hn (rect_zipWith (f := (· * ·)) mat sign hrect)]
+  simp only [List.map_map]
+  congr 1
+  apply List.map_congr_left
+  intro r _
+  exact distSq_eq_geoDistSq _ _
+
+/-- **Finite when an objective is constant.**  With the zero-range guard the transformation returns
+    a value for EVERY matrix (constant objectives, one point, ragged input included) … -/
+theorem dist_finite_when_constant (mat : List (List α)) (sign line : List α) (hll : Np.dot line line ≠ 0) :
+    ∃ out, transDistSq true mat sign line = some out := by
+  unfold transDistSq
+  have h0 : (Np.dot line line == 0) = false := by simpa using hll
+  rw [h0, scaleCols_guarded]
+  exact ⟨_, rfl⟩
+
+/-- … one value per point, each a non-negative number -/
+theorem dist_finite_one_per_point (mat : List (List α)) (sign line : List α)
+    (hrect : ∀ r ∈ mat, r.length = sign.length) (hn : 0 < sign.length) (hll : Np.dot line line ≠ 0) :
+    ∃ out, transDistSq true mat sign line = some out ∧ out.length = mat.length ∧ ∀ d ∈ out, 0 ≤ d := by
+  refine ⟨_, dist_eq_geometric_def mat sign line hrect hn hll, by simp [geoDist], ?_⟩
+  intro d hd
+  simp only [geoDist, List.map_map, List.mem_map, Function.comp] at hd
+  obtain ⟨r, _, rfl⟩ := hd
+  rw [← distSq_eq_geoDistSq]
+  exact dist_nonneg _ _
+
+/-- **D13 (pre-repair behaviour).**  Without the guard (`trans_ndpt_to_vec_dist` before 1939b469)
+    every non-empty front with a constant objective gives NaN (`none`). -/
+theorem dist_prerepair_nan_of_constant (mat : List (List α)) (sign line : List α)
+    (hne : mat ≠ []) (hrect : ∀ r ∈ mat, r.length = sign.length) (j : Nat) (hj : j < sign.length) (v : α)
+    (hconst : ∀ r ∈ mat, r[j]? = some v) :
+    transDistSq false mat sign line = none := by
+  unfold transDistSq
+  by_cases h0 : (Np.dot line line == 0) = true
+  · rw [if_pos h0]
+  rw [if_neg h0]
+  have hne' : mat.map (fun r => List.zipWith (· * ·) r sign) ≠ [] := by simpa using hne
+  rw [scaleCols_unguarded_const _ sign.length j hne' (rect_zipWith (f := (· * ·)) mat sign hrect) hj
+    (v * sign[j]) (by
+      intro r hr
+      obtain ⟨r0, h0, rfl⟩ := List.mem_map.mp hr
+      simp [List.getElem?_zipWith, hconst r0 h0, List.getElem?_eq_getElem hj])]
+
+/-- the concrete front of the corpus (second objective constant): NaN before the repair,
+    finite (`[1/4, 1/2, 0]`) after it -/
+theorem dist_prerepair_nan_counterexample :
+    transDistSq false ([[1, 2], [2, 2], [0, 2]] : List (List α)) [1, 1] [1, 1] = none ∧
+    ∃ out, transDistSq true ([[1, 2], [2, 2], [0, 2]] : List (List α)) [1, 1] [1, 1] = some out := by
+  constructor
+  · apply dist_prerepair_nan_of_constant _ _ _ (by simp) (by simp) 1 (by simp) 2
+    simp
+  · apply dist_finite_when_constant
+    simp [Np.dot, Np.sum]
+
+/-- **Translation invariance.**  Translating the front by any vector `t` (before the sign
+    multiplication, as a caller would) does not change any distance; holds with and without the guard. -/
+theorem dist_translation_invariant (g : Bool) (mat : List (List α)) (t sign line : List α)
+    (hrect : ∀ r ∈ mat, r.length = sign.length) (ht : t.length = sign.length) :
+    transDistSq g (mat.map (fun r => List.zipWith (· + ·) r t)) sign line = transDistSq g mat sign line := by
+  unfold transDistSq
+  have e : (mat.map (fun r => List.zipWith (· + ·) r t)).map (fun r => List.zipWith (· * ·) r sign) =
+      (mat.map (fun r => List.zipWith (· * ·) r sign)).map
+        (fun r => List.zipWith (· + ·) r (List.zipWith (· * ·) t sign)) := by
+    simp only [List.map_map]
+    apply List.map_congr_left
+    intro r _
+    simp only [Function.comp]
+    apply List.ext_getElem
+    · simp only [List.length_zipWith]; omega
+    · intro i h1 h2
+      simp only [List.getElem_zipWith]
+      ring
+  rw [e, scaleCols_add]
+  intro r hr
+  obtain ⟨r0, h0, rfl⟩ := List.mem_map.mp hr
+  simp [hrect r0 h0, ht]
+
+/-- **Positive rescaling of objectives** (each objective `j` multiplied by `cs[j] > 0`) does not
+    change any distance: the min–max scaling removes it.  (Only for positive factors — a negative
+    factor reverses the objective, which is what `sign` is for: see `dist_sign_flip_counterexample`.) -/
+theorem dist_rescale_invariant (g : Bool) (mat : List (List α)) (cs sign line : List α)
+    (hrect : ∀ r ∈ mat, r.length = sign.length) (hc : cs.length = sign.length) (hpos : ∀ c ∈ cs, 0 < c) :
+    transDistSq g (mat.map (fun r => List.zipWith (· * ·) r cs)) sign line = transDistSq g mat sign line := by
+  unfold transDistSq
+  have e : (mat.map (fun r => List.zipWith (· * ·) r cs)).map (fun r => List.zipWith (· * ·) r sign) =
+      (mat.map (fun r => List.zipWith (· * ·) r sign)).map (fun r => List.zipWith (· * ·) r cs) := by
+    simp only [List.map_map]
+    apply List.map_congr_left
+    intro r _
+    simp only [Function.comp]
+    apply List.ext_getElem
+    · simp only [List.length_zipWith]; omega
+    · intro i h1 h2
+      simp only [List.getElem_zipWith]
+      ring
+  rw [e, scaleCols_mul g _ cs _ hpos]
+  intro r hr
+  obtain ⟨r0, h0, rfl⟩ := List.mem_map.mp hr
+  simp [hrect r0 h0, hc]
+
+/-- **Scaled values lie in [0,1]** (any matrix) … -/
+theorem scaled_in_unit_interval (mat scaled : List (List α)) (h : scaleCols true mat = some scaled) :
+    ∀ row ∈ scaled, ∀ y ∈ row, 0 ≤ y ∧ y ≤ 1 :=
+  scaleCols_unit mat scaled h
+
+/-- … and a constant objective is scaled to 0 in every point -/
+theorem scaled_constant_zero (mat scaled : List (List α)) (n : Nat) (hn : 0 < n)
+    (hrect : ∀ r ∈ mat, r.length = n) (j : Nat) (v : α) (hconst : ∀ r ∈ mat, r[j]? = some v)
+    (h : scaleCols true mat = some scaled) : ∀ row ∈ scaled, row[j]? = some 0 := by
+  rw [scaleCols_guarded_rows mat n hn hrect] at h
+  have h := Option.some.inj h
+  subst h
+  intro row hrow
+  obtain ⟨r, hr, rfl⟩ := List.mem_map.mp hrow
+  have hcc : ∀ x ∈ colOf mat j, x = v := by
+    intro x hx
+    obtain ⟨r', hr', hrx⟩ := (mem_colOf _ _ _).mp hx
+    rw [hconst r' hr'] at hrx
+    exact (Option.some.inj hrx).symm
+  have hcne : colOf mat j ≠ [] := by
+    intro h0
+    have : v ∈ colOf mat j := (mem_colOf _ _ _).mpr ⟨r, hr, hconst r hr⟩
+    rw [h0] at this; simp at this
+  simp only [List.getElem?_map, List.getElem?_zipIdx, hconst r hr, Option.map_some, zero_add]
+  simp [scaleEntryG, colMax_const _ v hcne hcc, colMin_const _ v hcne hcc]
+
+/-- **Spec soundness.**  The decidable Spec `Pareto.specDist` that the harness evaluates (driver op
+    `c19.spec_dist`) on the implementation's squared distances accepts the model's own output, for
+    every tolerance. -/
+theorem spec_dist_sound (rel abs_ : α) (mat : List (List α)) (sign line : List α)
+    (hrect : ∀ r ∈ mat, r.length = sign.length) (hn : 0 < sign.length) (hll : Np.dot line line ≠ 0)
+    (out : List α) (h : transDistSq true mat sign line = some out) :
+    specDist rel abs_ mat sign line (out.map some) = true := by
+  rw [dist_eq_geometric_def mat sign line hrect hn hll] at h
+  rw [← Option.some.inj h]
+  exact specDist_geoDist rel abs_ mat sign line
+
+/-- the Spec demands finiteness and one distance per point -/
+theorem spec_dist_rejects (rel abs_ : α) (mat : List (List α)) (sign line : List α) (d2 : List (Option α)) :
+    (none ∈ d2 → specDist rel abs_ mat sign line d2 = false) ∧
+    (specDist rel abs_ mat sign line d2 = true → d2.length = mat.length) :=
+  ⟨specDist_none rel abs_ mat sign line d2, specDist_length rel abs_ mat sign line d2⟩
+
+end dist
+
+
+/-! ### the theorems apply to exactly the functions the driver runs
+
+`Pareto.Q.*` (Model/Pareto.lean, compiled without Mathlib) are the model's definitions at core `Rat`
+with the core instances (`Rat.instMul`, `Rat.instLT`, `Rat.instDecidableLt`, `Rat.instOfNat`,
+`instBEqOfDecidableEq`, …); `Drv/C19.lean` calls these constants.  The generic theorems above are
+stated over `[Field α] [LinearOrder α] [IsStrictOrderedRing α]`; at `α := ℚ` Mathlib's instances
+unfold to the core operations, so every instantiation below is accepted by `exact` up to
+definitional unfolding of instances — no `Subsingleton` / `decide` bridge was needed. -/
+section Q
+open Pareto
+
+theorem Q_filter_sound (fmat : List (List ℚ)) (wt : List ℚ) (hrect : ∀ r ∈ fmat, r.length = wt.length)
+    (i : Nat) (hi : i ∈ Q.efficientIdx fmat wt) (j : Nat) (hj : j < fmat.length) :
+    Q.strictDom (Q.applyWt wt (fmat.getD j [])) (Q.applyWt wt (fmat.getD i [])) = false :=
+  filter_sound (α := ℚ) fmat wt hrect i hi j hj
+
+theorem Q_filter_complete (fmat : List (List ℚ)) (wt : List ℚ) (hrect : ∀ r ∈ fmat, r.length = wt.length)
+    (i : Nat) (hi : i < fmat.length) (hni : i ∉ Q.efficientIdx fmat wt) :
+    ∃ j ∈ Q.efficientIdx fmat wt, Q.weakDom (Q.applyWt wt (fmat.getD i [])) (Q.applyWt wt (fmat.getD j [])) = true :=
+  filter_complete (α := ℚ) fmat wt hrect i hi hni
+
+theorem Q_mask_eq_index (fmat : List (List ℚ)) (wt : List ℚ) (i : Nat) (hi : i < fmat.length) :
+    (Q.efficientMask fmat wt)[i]? = some (decide (i ∈ Q.efficientIdx fmat wt)) :=
+  mask_eq_index (α := ℚ) fmat wt i hi
+
+theorem Q_perm_invariant_set (fmat fmat' : List (List ℚ)) (wt : List ℚ) (hp : fmat.Perm fmat')
+    (hrect : ∀ r ∈ fmat, r.length = wt.length) (v : List ℚ) :
+    v ∈ (Q.efficientIdx fmat wt).map (fun i => Q.applyWt wt (fmat.getD i [])) ↔
+    v ∈ (Q.efficientIdx fmat' wt).map (fun i => Q.applyWt wt (fmat'.getD i [])) :=
+  perm_invariant_set (α := ℚ) fmat fmat' wt hp hrect v
+
+theorem Q_rescale_invariant (fmat : List (List ℚ)) (wt cs : List ℚ)
+    (hrect : ∀ r ∈ fmat, r.length = wt.length) (hcs : cs.length = wt.length) (hpos : ∀ c ∈ cs, 0 < c) :
+    Q.efficientIdx fmat (List.zipWith (· * ·) wt cs) = Q.efficientIdx fmat wt :=
+  rescale_invariant (α := ℚ) fmat wt cs hrect hcs hpos
+
+theorem Q_dominates_feasible (o1 o2 : List ℚ) (c1 c2 : ℚ) (h1 : c1 ≤ 0) (h2 : c2 ≤ 0) :
+    Q.dominates o1 c1 o2 c2 = Q.strictDom o2 o1 :=
+  dominates_feasible_eq_strictDom (α := ℚ) o1 o2 c1 c2 h1 h2
+
+theorem Q_dominates_infeasible (o1 o2 : List ℚ) (c1 c2 : ℚ) (h : 0 < c1 ∨ 0 < c2) :
+    Q.dominates o1 c1 o2 c2 = true ↔ c1 < c2 :=
+  dominates_infeasible_iff (α := ℚ) o1 o2 c1 c2 h
+
+theorem Q_dominates_strict_order (o1 o2 o3 : List ℚ) (c1 c2 c3 : ℚ) :
+    Q.dominates o1 c1 o1 c1 = false ∧
+    (Q.dominates o1 c1 o2 c2 = true → Q.dominates o2 c2 o1 c1 = false) ∧
+    (o1.length = o2.length → o2.length = o3.length → Q.dominates o1 c1 o2 c2 = true →
+      Q.dominates o2 c2 o3 c3 = true → Q.dominates o1 c1 o3 c3 = true) :=
+  ⟨dominates_irrefl (α := ℚ) o1 c1, dominates_asymm (α := ℚ) o1 o2 c1 c2,
+   dominates_trans (α := ℚ) o1 o2 o3 c1 c2 c3⟩
+
+theorem Q_dist_eq_geometric_def (mat : List (List ℚ)) (sign line : List ℚ)
+    (hrect : ∀ r ∈ mat, r.length = sign.length) (hn : 0 < sign.length) (hll : Np.dot line line ≠ 0) :
+    Q.transDistSq true mat sign line = some (Q.geoDist mat sign line) :=
+  dist_eq_geometric_def (α := ℚ) mat sign line hrect hn hll
+
+theorem Q_dist_finite_when_constant (mat : List (List ℚ)) (sign line : List ℚ) (hll : Np.dot line line ≠ 0) :
+    ∃ out, Q.transDistSq true mat sign line = some out :=
+  dist_finite_when_constant (α := ℚ) mat sign line hll
+
+theorem Q_dist_translation_invariant (g : Bool) (mat : List (List ℚ)) (t sign line : List ℚ)
+    (hrect : ∀ r ∈ mat, r.length = sign.length) (ht : t.length = sign.length) :
+    Q.transDistSq g (mat.map (fun r => List.zipWith (· + ·) r t)) sign line = Q.transDistSq g mat sign line :=
+  dist_translation_invariant (α := ℚ) g mat t sign line hrect ht
+
+theorem Q_dist_rescale_invariant (g : Bool) (mat : List (List ℚ)) (cs sign line : List ℚ)
+    (hrect : ∀ r ∈ mat, r.length = sign.length) (hc : cs.length = sign.length) (hpos : ∀ c ∈ cs, 0 < c) :
+    Q.transDistSq g (mat.map (fun r => List.zipWith (· * ·) r cs)) sign line = Q.transDistSq g mat sign line :=
+  dist_rescale_invariant (α := ℚ) g mat cs sign line hrect hc hpos
+
+/-- the Spec the driver evaluates (`c19.spec_dist`) accepts what the driver's model (`c19.dist`) returns -/
+theorem Q_spec_dist_sound (rel abs_ : ℚ) (mat : List (List ℚ)) (sign line : List ℚ)
+    (hrect : ∀ r ∈ mat, r.length = sign.length) (hn : 0 < sign.length) (hll : Np.dot line line ≠ 0)
+    (out : List ℚ) (h : Q.transDistSq true mat sign line = some out) :
+    Q.specDist rel abs_ mat sign line (out.map some) = true :=
+  spec_dist_sound (α := ℚ) rel abs_ mat sign line hrect hn hll out h
+
+/-- D13 on the driver's functions, evaluated by the kernel: NaN before the repair, finite after -/
+theorem Q_dist_prerepair_nan_counterexample :
+    Q.transDistSq false [[1, 2], [2, 2], [0, 2]] [1, 1] [1, 1] = none ∧
+    Q.transDistSq true [[1, 2], [2, 2], [0, 2]] [1, 1] [1, 1] = some [1/8, 1/2, 0] := by
+  decide +kernel
+
+/-- rescaling invariance needs POSITIVE factors: reversing one objective (factor −1) changes the
+    distances (the caller has to say so through `sign`) -/
+theorem dist_sign_flip_counterexample :
+    Q.transDistSq true ([[0, 0], [1, 1]].map (fun r => List.zipWith (· * ·) r [-1, 1])) [1, 1] [1, 1] = some [1/2, 1/2] ∧
+    Q.transDistSq true [[0, 0], [1, 1]] [1, 1] [1, 1] = some [0, 0] ∧
+    Q.transDistSq true [[0, 0], [1, 1]] [-1, 1] [1, 1] = some [1/2, 1/2] := by
+  decide +kernel
+
+end Q
+
 /-! ### non-vacuity: the hypotheses are met by concrete non-trivial inputs (evaluated by the kernel) -/
 
 example : efficientIdx (α := Int) [[1, 2], [2, 1], [1, 1], [2, 1], [0, 3]] [1, 1] = [0, 1, 4] := by decide
@@ -302,5 +729,40 @@ example : effVecs (α := Int) [[1, 2], [2, 1], [1, 1], [2, 1], [0, 3]] [1, 1] = 
 example : efficientIdx (α := Int) [[1, 2], [2, 1], [1, 1]] (List.zipWith (· * ·) [1, -1] [3, 5])
     = efficientIdx (α := Int) [[1, 2], [2, 1], [1, 1]] [1, -1] := by decide
 example : dominates (α := Int) [1, 2] 0 [1, 3] 0 = true ∧ dominates (α := Int) [1, 2] 1 [0, 0] 2 = true := by decide
+
+
+/- distance part: hypotheses of the theorems on concrete rational inputs, and the values the
+   driver's functions return on them (kernel evaluation of the core `Rat` code) -/
+example : vdot ([1, 2] : List ℚ) [1, 2] ≠ 0 ∧ ([3, 1] : List ℚ).length = ([1, 2] : List ℚ).length := by
+  norm_num [vdot]
+example : distSq ([1, 2] : List ℚ) [3, 1] = vdot ([3, 1] : List ℚ) [3, 1] - (vdot ([3, 1] : List ℚ) [1, 2]) ^ 2 / vdot ([1, 2] : List ℚ) [1, 2] :=
+  dist_pythagoras _ _ rfl (by norm_num [vdot])
+example : distSq ([1, 2] : List ℚ) (smul 3 [1, 2]) = 0 :=
+  (dist_zero_iff_on_line _ _ (by simp [smul]) (by norm_num [vdot])).mpr ⟨3, rfl⟩
+example : (∀ r ∈ ([[5, 2], [7, 2], [6, 2]] : List (List ℚ)), r.length = ([1, -1] : List ℚ).length) ∧
+    0 < ([1, -1] : List ℚ).length ∧ Np.dot ([1, 2] : List ℚ) [1, 2] ≠ 0 := by
+  refine ⟨by simp, by simp, by norm_num [Np.dot, Np.sum]⟩
+example : Pareto.Q.transDistSq true [[5, 2], [7, 2], [6, 2]] [1, -1] [1, 2] = some [0, 4/5, 1/5] := by decide +kernel
+example : Pareto.Q.geoDist [[5, 2], [7, 2], [6, 2]] [1, -1] [1, 2] = [0, 4/5, 1/5] := by decide +kernel
+example : Pareto.Q.transDistSq true ([[5, 2], [7, 2], [6, 2]].map (fun r => List.zipWith (· + ·) r [1000000, -8388608]))
+    [1, -1] [1, 2] = some [0, 4/5, 1/5] := by decide +kernel
+example : Pareto.Q.transDistSq true ([[5, 2], [7, 2], [6, 2]].map (fun r => List.zipWith (· * ·) r [3, 1/7]))
+    [1, -1] [1, 2] = some [0, 4/5, 1/5] := by decide +kernel
+example : Pareto.Q.specDist (1/1000000000) (1/1000000000000) [[5, 2], [7, 2], [6, 2]] [1, -1] [1, 2]
+    [some 0, some (4/5), some (1/5)] = true ∧
+    Pareto.Q.specDist (1/1000000000) (1/1000000000000) [[5, 2], [7, 2], [6, 2]] [1, -1] [1, 2]
+    [some 0, some (4/5), some (1/4)] = false ∧
+    Pareto.Q.specDist (1/1000000000) (1/1000000000000) [[5, 2], [7, 2], [6, 2]] [1, -1] [1, 2]
+    [some 0, none, some (1/5)] = false := by decide +kernel
+example : Pareto.scaleCols (α := Rat) true [[5, 2], [7, 2], [6, 2]] = some [[0, 0], [1, 0], [1/2, 0]] ∧
+    Pareto.scaleCols (α := Rat) false [[5, 2], [7, 2], [6, 2]] = none := by decide +kernel
+example : (∀ r ∈ ([[5, 2], [7, 2], [6, 2]] : List (List ℚ)), r[1]? = some 2) ∧
+    (∃ x ∈ ([0, 2] : List ℚ), x ≠ 0) := by
+  refine ⟨by decide, 2, by simp, by norm_num⟩
+-- collinear front (every scaled point on the line (1,1)): all distances exactly 0; one objective: 0
+example : Pareto.Q.transDistSq true [[0, 10], [1, 12], [4, 18], [2, 14]] [1, 1] [1, 1] = some [0, 0, 0, 0] := by decide +kernel
+example : Pareto.Q.transDistSq true [[3], [5], [4]] [-1] [2] = some [0, 0, 0] := by decide +kernel
+example : Pareto.Q.dominates [1, 2] 1 [0, 0] 2 = true ∧ Pareto.Q.dominates [0, 0] 2 [1, 2] 1 = false ∧
+    Pareto.Q.dominates [1, 2] 2 [0, 0] 2 = false ∧ Pareto.Q.dominates [0, 0] 2 [1, 2] 2 = false := by decide +kernel
 
 end C19
